@@ -21,6 +21,8 @@ type recorder struct {
 	errs   []string
 	routed []stanza.Packet
 	notify chan struct{}
+	// hook, when set, runs in the routing goroutine after the packet was recorded (a handler that takes its time)
+	hook func(stanza.Packet)
 }
 
 func newRecorder() *recorder { return &recorder{notify: make(chan struct{}, 1)} }
@@ -51,8 +53,12 @@ func (r *recorder) onError(err error) {
 func (r *recorder) onPacket(s xmpp.Sender, p stanza.Packet) {
 	r.mu.Lock()
 	r.routed = append(r.routed, p)
+	hook := r.hook
 	r.mu.Unlock()
 	r.ping()
+	if hook != nil {
+		hook(p)
+	}
 }
 
 func (r *recorder) snapshot() (states []xmpp.ConnState, errs []string, routed []stanza.Packet) {
